@@ -1233,16 +1233,20 @@ impl Interp {
         let mut fut = exec(req, msgs, self.p.clone(), self.s.clone());
         let mut polls = 0u32;
         let mut out = None;
-        for _ in 0..k {
+        for n in 0..k {
+            if n > 0 {
+                // scheduler activity between two polls; none after the last poll, so that the
+                // future is dropped exactly at the suspension point it has reached
+                if settle_between {
+                    tokio::time::sleep(Duration::from_millis(1)).await;
+                } else {
+                    tokio::task::yield_now().await;
+                }
+            }
             polls += 1;
             if let std::task::Poll::Ready(o) = futures::poll!(&mut fut) {
                 out = Some(o);
                 break;
-            }
-            if settle_between {
-                tokio::time::sleep(Duration::from_millis(1)).await;
-            } else {
-                tokio::task::yield_now().await;
             }
         }
         match out {
